@@ -247,7 +247,7 @@ func semFalse(t *Term) bool {
 		theBDD.opaque = map[int]bool{}
 	}
 	b := theBDD
-	if b.skip[t.id] || bddStats.aborts > 40 {
+	if b.skip[t.id] || bddStats.aborts > bddMaxAborts {
 		// too many blow-ups: the guards of this harness are not BDD-friendly; stop trying
 		return false
 	}
@@ -291,3 +291,5 @@ func semFalse(t *Term) bool {
 	}
 	return res
 }
+
+var bddMaxAborts = 400
